@@ -56,6 +56,7 @@ func (e *Exec) formatMsg(format Str, args []Value) Str {
 			out = append(out, e.tt.BV(8, uint64(c)))
 			continue
 		}
+		specStart := i
 		j := i + 1
 		for j < len(fs) && strings.IndexByte("+-# 0123456789.", fs[j]) >= 0 {
 			j++
@@ -83,6 +84,9 @@ func (e *Exec) formatMsg(format Str, args []Value) Str {
 			}
 		}
 		switch x := a.(type) {
+		case Float:
+			// concrete floats: the host's formatting with the same flags and verb
+			emit(fmt.Sprintf(fs[specStart:j+1], x.v))
 		case Str:
 			if verb == 'q' {
 				emit("\"")
